@@ -101,10 +101,15 @@ class PyFileWriter(AbstractWriter):
                 pass  # XXX
 
             except Exception:
+                exc = sys.exc_info()
                 if pyfile and os.access(pyfile, os.F_OK):
-                    os.unlink(pyfile)
+                    try:
+                        os.unlink(pyfile)
 
-                raise error.PySmiWriterError('failure compiling %s: %s' % (pyfile, sys.exc_info()[1]), file=mibname, writer=self)
+                    except OSError:
+                        pass
+
+                raise error.PySmiWriterError('failure compiling %s: %s' % (pyfile, exc[1]), file=mibname, writer=self)
 
         debug.logger & debug.flagWriter and debug.logger('%s stored' % mibname)
 
